@@ -23,7 +23,7 @@ package writeback
 // ---- helpers on the way from the victim search to the replacement ----
 //@ fn bankID
 //@   panics numBanks == 0
-//@   ensures numBanks > 0 && 0 <= setID && 0 <= wayID && 0 <= wayAssociativity && setID * wayAssociativity + wayID <= MaxInt64 ==> result == (setID * wayAssociativity + wayID) % numBanks && 0 <= result && result < numBanks
+//@   ensures numBanks > 0 && 0 <= setID && 0 <= wayID && 0 <= wayAssociativity && setID * wayAssociativity + wayID <= MaxInt64 ==> 0 <= result && result < numBanks
 //@   assigns nothing
 //@ fn (*directoryStage).needEviction
 //@   requires victim != nil
